@@ -81,6 +81,32 @@ def inventory():
         for node in tree.body:
             if isinstance(node, ast.FunctionDef):
                 _defaults(found, rel, node.name, node, mutable)
+        # state kept on module-level functions / classes from outside their body ('inspect.seen = set()' at module level, or set
+        # inside a function), and module globals rebound from inside a function ('global X')
+        toplevel = {n.name for n in tree.body if isinstance(n, (ast.FunctionDef, ast.ClassDef))}
+
+        def root(t):
+            while isinstance(t, (ast.Attribute, ast.Subscript)):
+                t = t.value
+            return t.id if isinstance(t, ast.Name) else None
+
+        for node in ast.walk(tree):
+            if isinstance(node, ast.Global):
+                for nm in node.names:
+                    found[(rel, "global-stmt", nm)] = node.lineno
+        for node in tree.body:
+            if isinstance(node, (ast.Assign, ast.AugAssign, ast.AnnAssign)):
+                for t in (node.targets if isinstance(node, ast.Assign) else [node.target]):
+                    if isinstance(t, (ast.Attribute, ast.Subscript)) and root(t) in toplevel:
+                        found[(rel, "attr-set-from-outside", ast.unparse(t).split("[")[0])] = node.lineno
+        for fn_ in [n for n in ast.walk(tree) if isinstance(n, ast.FunctionDef)]:
+            for node in ast.walk(fn_):
+                if isinstance(node, (ast.Assign, ast.AugAssign)):
+                    for t in (node.targets if isinstance(node, ast.Assign) else [node.target]):
+                        if isinstance(t, (ast.Attribute, ast.Subscript)) and root(t) in toplevel and not isinstance(t, ast.Name):
+                            nm_ = ast.unparse(t).split("[")[0]
+                            if (rel, "class-attr", nm_) not in found:  # (a class attribute listed above is one item, however it is written to)
+                                found[(rel, "attr-set-from-outside", nm_)] = node.lineno
         # calls that change interpreter- / process-wide settings: the second analysis of a process meets what the first one set
         # (some of them can be made only once per process, e.g. multiprocessing.set_start_method)
         for node in ast.walk(tree):
